@@ -40,12 +40,14 @@ type Contract struct {
 	Loops      map[int]*LoopSpec
 	Pure       bool // call sites use an uninterpreted function of the arguments (assumption unless body is proved deterministic+frame-free)
 	ModNothing bool // "modifies nothing": call sites keep every heap (checked syntactically for in-repo bodies)
+	ModYounger string // "modifies younger <expr>": writes only to the object <expr> points into and to younger objects (assumed)
 	Trusted    bool // body is not verified; contract is an assumption
 	Inline     bool // always inline at call sites
 	NoInline   bool // never inline: uncontracted havoc
 	AllowPanic bool // explicit panic() reachable is not an obligation
 	Sets       []GhostSet
 	Params     []string // optional parameter names (for externals whose export data lost names)
+	Callbacks  map[string]bool   // function-typed parameters assumed not to modify memory the function observes
 	Witness    map[string]string // ensures label -> witness expression for its leading integer existential
 	Used       bool
 }
@@ -72,6 +74,7 @@ type SpecDB struct {
 	Files     []string
 	Consts    map[string]string // named spec constants -> SMT term
 	Macros    map[string]*Macro
+	StableGhosts map[string]bool
 }
 
 // Macro is a spec-level definition: //@ def name(a, b) = expr
@@ -82,7 +85,7 @@ type Macro struct {
 }
 
 func NewSpecDB() *SpecDB {
-	return &SpecDB{Contracts: map[string]*Contract{}, UFs: map[string]*UFDecl{}, Ghosts: map[string]string{}, Consts: map[string]string{}, Macros: map[string]*Macro{}}
+	return &SpecDB{Contracts: map[string]*Contract{}, UFs: map[string]*UFDecl{}, Ghosts: map[string]string{}, Consts: map[string]string{}, Macros: map[string]*Macro{}, StableGhosts: map[string]bool{}}
 }
 
 // funcKey turns "F", "(*T).M", "(T).M", "iface pkg.I.M" written inside package pkgPath into the
@@ -188,7 +191,14 @@ func (db *SpecDB) LoadSpecFile(file, pkgPath string) error {
 			if len(fs) != 2 {
 				return fmt.Errorf("%s:%d: bad ghost", file, ln)
 			}
-			db.Ghosts[fs[0]] = strings.TrimSpace(fs[1])
+			srt := strings.TrimSpace(fs[1])
+			if strings.HasSuffix(srt, " stable") {
+				// stable: only contracts that name it in `sets` change it; calls without a
+				// contract are assumed not to (reported as an assumption when relied upon)
+				srt = strings.TrimSpace(strings.TrimSuffix(srt, " stable"))
+				db.StableGhosts[fs[0]] = true
+			}
+			db.Ghosts[fs[0]] = srt
 		case "const":
 			fs := strings.SplitN(rest, "=", 2)
 			db.Consts[strings.TrimSpace(fs[0])] = strings.TrimSpace(fs[1])
@@ -258,6 +268,16 @@ func (db *SpecDB) LoadSpecFile(file, pkgPath string) error {
 				return fmt.Errorf("%s:%d: bad sets", file, ln)
 			}
 			cur.Sets = append(cur.Sets, GhostSet{Var: strings.TrimSpace(fs[0]), Src: strings.TrimSpace(fs[1])})
+		case "callback":
+			// callback <param> modifies nothing
+			fs := strings.Fields(rest)
+			if cur == nil || len(fs) != 3 || fs[1] != "modifies" || fs[2] != "nothing" {
+				return fmt.Errorf("%s:%d: bad callback clause (want: callback <param> modifies nothing)", file, ln)
+			}
+			if cur.Callbacks == nil {
+				cur.Callbacks = map[string]bool{}
+			}
+			cur.Callbacks[fs[0]] = true
 		case "witness":
 			l, r := parseLabel(rest)
 			fs := strings.SplitN(r, "=", 2)
@@ -274,6 +294,8 @@ func (db *SpecDB) LoadSpecFile(file, pkgPath string) error {
 		case "modifies":
 			if rest == "nothing" {
 				cur.ModNothing = true
+			} else if strings.HasPrefix(rest, "younger ") {
+				cur.ModYounger = strings.TrimSpace(strings.TrimPrefix(rest, "younger "))
 			} else {
 				return fmt.Errorf("%s:%d: only 'modifies nothing' is supported", file, ln)
 			}
